@@ -14,6 +14,7 @@ import (
 	"fmt"
 	"sort"
 	"sync"
+	"time"
 
 	"github.com/logrange/logrange/pkg/model"
 	"github.com/logrange/range/pkg/records/chunk"
@@ -26,6 +27,10 @@ type wposCase struct {
 	Writers  int `json:"writers"`
 	Writes   int `json:"writes"` // Write calls per writer
 	Batch    int `json:"batch"`  // events per call
+	// WithEvent: the writers call Service.Write with noEvent = false (the RPC ingestor's form; since /repo 25f9816 such writers of
+	// one partition are serialised by a per-partition lock); false: noEvent = true, the pipe worker's form (several workers of
+	// one pipe write into the pipe's partition at the same time)
+	WithEvent bool `json:"with_event,omitempty"`
 }
 
 func runWPos(c wposCase, sec *vh.Section) {
@@ -40,10 +45,42 @@ func runWPos(c wposCase, sec *vh.Section) {
 		sf := vh.SpecFailure{Section: "wpos", Kind: kind, Input: c, Impl: clip(impl), Spec: clip(spec), What: what}
 		// class of F-C01-901: at least two writers on the same partition (the model's late count read then admits a shifted range:
 		// Props/C01Conc.lean not_late_positions_exact; with one writer the ranges are exact: late_positions_exact_partial)
-		if c.Writers >= 2 {
+		// … and these writers do not hold the per-partition write lock of Service.Write (model: WritersLts.takesLock over the
+		// regenerated fact writeLockScope — since /repo 25f9816 only callers with noEvent = false do). Writers that DO hold it
+		// have exact positions (late_positions_exact_for_locking_writers): a shifted range among them stays unattributed.
+		ne := "1"
+		if c.WithEvent {
+			ne = "0"
+		}
+		locked := "?"
+		if ans, err := vh.Batch(args.Driver, []string{"wpos.locked " + ne}); err == nil && len(ans) == 1 {
+			locked = ans[0]
+		}
+		sf.Model = "writers hold the partition's write lock: " + locked
+		if c.Writers >= 2 && locked == "0" {
 			sf.Finding, sf.ImplEqModel = "F-C01-901", true
 		}
 		res.SpecFail(sf)
+	}
+	// with events: somebody has to take them off the service's channel (capacity 100); their ranges are checked like the calls
+	var wes []idxCall
+	var weMu sync.Mutex
+	drainCtx, stopDrain := context.WithCancel(context.Background())
+	defer stopDrain()
+	if c.WithEvent {
+		go func() {
+			for {
+				we, err := co.ps.GetWriteEvent(drainCtx)
+				if err != nil {
+					return
+				}
+				if we.StartPos.CId == we.EndPos.CId && we.EndPos.Idx > we.StartPos.Idx {
+					weMu.Lock()
+					wes = append(wes, idxCall{first: we.StartPos.Idx, last: we.EndPos.Idx - 1, cid: we.StartPos.CId})
+					weMu.Unlock()
+				}
+			}
+		}()
 	}
 	var wg sync.WaitGroup
 	start := make(chan struct{})
@@ -59,7 +96,7 @@ func runWPos(c wposCase, sec *vh.Section) {
 					evs[k] = model.LogEvent{Timestamp: int64(seq + 1), Msg: []byte(fmt.Sprintf("%d/%d/%d", w, i, seq))}
 					seq++
 				}
-				if err := co.ps.Write(context.Background(), tags, &litIt{evs: evs}, true); err != nil {
+				if err := co.ps.Write(context.Background(), tags, &litIt{evs: evs}, !c.WithEvent); err != nil {
 					res.Note("wpos: write failed: %v", err)
 					return
 				}
@@ -114,23 +151,31 @@ func runWPos(c wposCase, sec *vh.Section) {
 	for _, cl := range calls {
 		byChunk[cl.cid] = append(byChunk[cl.cid], cl)
 	}
-	shifted := 0
-	firstBad := ""
-	for cid, cs := range byChunk {
-		sort.Slice(cs, func(a, b int) bool { return cs[a].first < cs[b].first })
-		next := uint32(0)
-		for _, cl := range cs {
-			if cl.first != next {
-				shifted++
-				if firstBad == "" {
-					firstBad = fmt.Sprintf("chunk %v: a range starts at %d, the previous one ended before %d (ranges overlap or leave a gap)", cid, cl.first, next)
-				}
+	shifted, firstBad := rangesOff(byChunk, counts)
+	// (1b) the same for the published write events (every Write here stays inside one chunk)
+	if c.WithEvent {
+		for i := 0; i < 500; i++ {
+			weMu.Lock()
+			n := len(wes)
+			weMu.Unlock()
+			if n >= c.Writers*c.Writes {
+				break
 			}
-			next = cl.last + 1
+			time.Sleep(10 * time.Millisecond)
 		}
-		if int(next) != counts[cid] && firstBad == "" {
-			firstBad = fmt.Sprintf("chunk %v: the announced ranges end at %d, the chunk holds %d records", cid, next, counts[cid])
-			shifted++
+		weMu.Lock()
+		evByChunk := map[chunk.Id][]idxCall{}
+		for _, e := range wes {
+			evByChunk[e.cid] = append(evByChunk[e.cid], e)
+		}
+		nEv := len(wes)
+		weMu.Unlock()
+		if nEv == c.Writers*c.Writes && len(cks) == 1 {
+			n2, fb := rangesOff(evByChunk, counts)
+			shifted += n2
+			if firstBad == "" && fb != "" {
+				firstBad = "WriteEvent ranges: " + fb
+			}
 		}
 	}
 	// (2) every announced range is one Write call's records
@@ -160,10 +205,36 @@ func runWPos(c wposCase, sec *vh.Section) {
 	res.Note("wpos %+v: %d OnWrite calls, %d records, %d ranges off", c, len(calls), total, shifted+mixed)
 }
 
+// rangesOff: per chunk the ranges must be pairwise disjoint and cover [0, count)
+func rangesOff(byChunk map[chunk.Id][]idxCall, counts map[chunk.Id]int) (off int, firstBad string) {
+	for cid, cs := range byChunk {
+		sort.Slice(cs, func(a, b int) bool { return cs[a].first < cs[b].first })
+		next := uint32(0)
+		for _, cl := range cs {
+			if cl.first != next {
+				off++
+				if firstBad == "" {
+					firstBad = fmt.Sprintf("chunk %v: a range starts at %d, the previous one ended before %d (ranges overlap or leave a gap)", cid, cl.first, next)
+				}
+			}
+			next = cl.last + 1
+		}
+		if int(next) != counts[cid] {
+			off++
+			if firstBad == "" {
+				firstBad = fmt.Sprintf("chunk %v: the announced ranges end at %d, the chunk holds %d records", cid, next, counts[cid])
+			}
+		}
+	}
+	return
+}
+
 func sectionWPos(rng *vh.Rng, corpus []wposCase) {
 	sec := res.Section("wpos", "stress",
-		"concurrent writers to ONE partition through partition.Service.Write on the hand-wired service (every TsIndexer.OnWrite call recorded): per chunk the announced ranges must be pairwise disjoint and cover [0, count), and every announced range must hold the records of exactly one Write call (read back with positions). The library returns the chunk's count after releasing the writer lock (Model/WritersPos.lean, not_late_positions_exact); a shifted range is finding F-C01-901 (schedule dependent: seen in about two of three runs of the 32-writer configuration). Quick: the corpus configuration (32 writers x 200 single-event writes); thorough: also 32 x 400 single-event writes and 16 x 300 three-event writes over 4000-byte chunks. non-trivial = every run")
+		"concurrent writers to ONE partition through partition.Service.Write on the hand-wired service (every TsIndexer.OnWrite call recorded): per chunk the announced ranges must be pairwise disjoint and cover [0, count), and every announced range must hold the records of exactly one Write call (read back with positions). The library returns the chunk's count after releasing the writer lock (Model/WritersPos.lean, not_late_positions_exact); a shifted range is finding F-C01-901 (schedule dependent: seen in about two of three runs of the 32-writer configuration). Quick: the corpus configuration (32 writers x 200 single-event writes with noEvent = true, the pipe worker's form) and 16 x 150 writes with noEvent = false (serialised by the per-partition write lock since /repo 25f9816: must be exact, also the WriteEvent ranges — a failure there is not attributed); thorough: also 32 x 400 single-event writes and 16 x 300 three-event writes over 4000-byte chunks. non-trivial = every run")
 	cases := append([]wposCase{}, corpus...)
+	// writers that publish their events (the RPC ingestor's form): serialised by the write lock, must be exact
+	cases = append(cases, wposCase{MaxChunk: 1 << 26, Writers: 16, Writes: 150, Batch: 1, WithEvent: true})
 	if args.Thorough {
 		cases = append(cases, wposCase{MaxChunk: 1 << 26, Writers: 32, Writes: 400, Batch: 1}, wposCase{MaxChunk: 4000, Writers: 16, Writes: 300, Batch: 3})
 	}
